@@ -301,3 +301,55 @@ func importObligations(res *report.Result, from *report.Result, rule string, onl
 	}
 	return n
 }
+
+// resolveCell: v with captured-variable plumbing removed: a load of a variable cell that is stored exactly once (in
+// its function or the closures capturing it) is the stored value; a free variable is its binding.
+func resolveCell(v ssa.Value) ssa.Value {
+	for d := 0; d < 6 && v != nil; d++ {
+		switch x := v.(type) {
+		case *ssa.FreeVar:
+			v = freeVarBinding(x)
+			continue
+		case *ssa.UnOp:
+			if x.Op != token.MUL {
+				return v
+			}
+			addr := x.X
+			if fv, ok := addr.(*ssa.FreeVar); ok {
+				addr = freeVarBinding(fv)
+			}
+			if al, ok := addr.(*ssa.Alloc); ok {
+				if st := cellStores(al); len(st) == 1 {
+					v = st[0].Val
+					continue
+				}
+			}
+			return v
+		}
+		return v
+	}
+	return v
+}
+
+// deferRuns: the defer runs a call satisfying pred - the deferred call itself, or, when a function literal is deferred,
+// a call that lies on every path through the literal (`defer func() { cancel() }()`). pred sees the call and a
+// resolver that maps the literal's values (free variables, captured cells) to the enclosing function's values.
+func deferRuns(d *ssa.Defer, pred func(cc *ssa.CallCommon, outer func(ssa.Value) ssa.Value) bool) bool {
+	if pred(&d.Call, resolveCell) {
+		return true
+	}
+	lit, _ := closureFn(d.Call.Value)
+	if lit == nil || len(lit.Blocks) == 0 || lit.Parent() == nil {
+		return false
+	}
+	for _, call := range flow.Calls(lit) {
+		if _, isCall := call.(*ssa.Call); !isCall || !pred(call.Common(), resolveCell) {
+			continue
+		}
+		hit := call
+		if !flow.FindPath(flow.Point{Block: lit.Blocks[0]}, flow.IsReturn, func(x ssa.Instruction) bool { return x == ssa.Instruction(hit) }, nil).Found {
+			return true
+		}
+	}
+	return false
+}
